@@ -211,3 +211,52 @@ Definition to_xstep (u : ustep) : xstep :=
   | UFinish p _ => XFinish p
   | UAbandon p => XAbandon p
   end.
+
+(* ---- the SYNTACTIC derivation path of every handle, computed from the history alone (what the harness
+        replays on a fresh gorm.Open); [linearb]: a chain result (clone mode 0) is used at most once ---- *)
+Local Open Scope nat_scope.
+Record hent := mk_h { he_mode : nat; he_path : list xpop; he_dead : bool }.
+Definition hent0 : hent := mk_h 1 [] false.
+Definition inst' (m : nat) (g : list xpop) : list xpop := match m with 1 => g ++ [XPNew] | _ => g end.
+Definition inst (e : hent) : list xpop := inst' (he_mode e) (he_path e).
+Definition sess_path (path : list xpop) (ctx : option Z) (skip : bool) : list xpop :=
+  let p1 := match ctx with Some v => path ++ [XPCtx v] | None => path end in
+  if skip then p1 ++ [XPSkip] else p1.
+
+(* a chain result (clone mode 0) that has been used is dead *)
+Definition kill (tbl : list hent) (p : nat) : list hent :=
+  match he_mode (nth p tbl hent0) with
+  | O => upd_nth tbl p (mk_h 0 (he_path (nth p tbl hent0)) true)
+  | _ => tbl
+  end.
+Definition new_ent (tbl : list hent) (x : xstep) : hent :=
+  let e p := nth p tbl hent0 in
+  match x with
+  | XDerive p o => mk_h 0 (inst (e p) ++ [XPOp o]) false
+  | XFinish p => mk_h 0 (inst (e p) ++ [XPFin]) false
+  | XSess p (XSession nd ctx skip prep) => mk_h (if nd then 1 else 2) (sess_path (he_path (e p)) ctx skip) false
+  | XSess p XDebug => mk_h 2 (inst (e p)) false
+  | XSess p XBegin =>
+      let q := inst (e p) in
+      mk_h (match he_mode (e p) with 1 => 1 | _ => 2 end) (q ++ [XPCtx (o_ctx (xreplay q))]) false
+  | XAbandon p => mk_h (he_mode (e p)) (he_path (e p)) (match he_mode (e p) with O => true | _ => false end)
+  end.
+Definition step_parent (x : xstep) : nat :=
+  match x with XDerive p _ | XSess p _ | XFinish p | XAbandon p => p end.
+Definition tstep (tbl : list hent) (x : xstep) : list hent := kill tbl (step_parent x) ++ [new_ent tbl x].
+Definition tbl0 : list hent := [hent0].
+Definition hpaths (hist : list xstep) : list hent := fold_left tstep hist tbl0.
+
+Definition usable (tbl : list hent) (p : nat) : bool := (p <? length tbl) && negb (he_dead (nth p tbl hent0)).
+Fixpoint linearb (tbl : list hent) (hist : list xstep) : bool :=
+  match hist with
+  | [] => true
+  | x :: r => usable tbl (step_parent x) && linearb (tstep tbl x) r
+  end.
+(* the derivation paths of the finishers of a history, in order *)
+Fixpoint fin_paths (tbl : list hent) (hist : list xstep) : list (list xpop) :=
+  match hist with
+  | [] => []
+  | x :: r => (match x with XFinish _ => [he_path (new_ent tbl x)] | _ => [] end) ++ fin_paths (tstep tbl x) r
+  end.
+
